@@ -142,6 +142,12 @@ func MapSeq[M ~map[K]V, K cmp.Ordered, V any](m M) iter.Seq2[K, V] {
 			keys = append(keys, k)
 		}
 		slices.Sort(keys)
+		// Go's map order is random: the start of the iteration is a tape
+		// decision (rotation of the sorted keys), 0 = sorted order.
+		if s := S; s != nil && len(keys) > 1 {
+			r := s.Tape.Choose(Sched, len(keys))
+			keys = append(keys[r:], keys[:r]...)
+		}
 		for _, k := range keys {
 			v, ok := m[k]
 			if !ok {
